@@ -1023,6 +1023,10 @@ pub fn corpus() -> Vec<Prog> {
         ),
         // repeated variables in head and body
         parse_prog(1, &[2, 2], &ints, "r0(1, 1).\nr0(1, 2).\nr0(2, 2).\nr1(V0, V0) <- r0(V0, V0)", "chain"),
+        // a variable repeated inside a body atom over a DERIVED relation: r2 = {0} through r1(0, 0) only;
+        // candidates enumerated without derived data must not bind V1 twice (r1(0, 2) is no instance)
+        parse_prog(1, &[2, 2, 1], &ints, "r0(0, 2).\nr0(0, 0).\nr0(1, 2).\nr1(V0, V1) <- r0(V0, V1)\nr2(V0) <- r1(V0, V1), r1(V1, V1)", "join"),
+        parse_prog(1, &[2, 3, 1], &ints, "r0(0, 2).\nr0(0, 0).\nr0(2, 2).\nr1(V0, V0, V1) <- r0(V0, V1)\nr2(V2) <- r1(V2, V3, V3)", "join"),
         // negation before its binding atom
         parse_prog(2, &[1, 1, 1], &ints, "r0(1).\nr0(2).\nr1(2).\nr2(V0) <- !r1(V1), r0(V0), r0(V1), V0 = V1", "shuffled"),
         // left-recursive closure over a graph with cycles: a sub-goal that fails only because its
